@@ -321,6 +321,42 @@ def genSer (rng : Rng) (len : Nat) (cutStep : Nat) : Rng × Array String :=
   let s := twoHandles s true p (len / 3) (len / 6)
   (s.rng, s.lines)
 
+/-- render profile: a history, then every text export of the graph and of each present (and one absent) vertex;
+    repeated once more after some further calls -/
+def renderLines (s : GenSt) : GenSt :=
+  let ks := R.keys s.r s.cap
+  let ls := #[s!"xml {s.h}", s!"dot {s.h}", s!"debug {s.h}", s!"display {s.h}", s!"observe {s.h}"] ++
+    (ks.toArray.flatMap (fun v => #[s!"inspect {s.h} {v}", s!"vprint {s.h} {v}"]))
+  { s with lines := s.lines ++ ls }
+
+/-- a second graph with the same content built in another way: larger capacity, vertices added in descending
+    order, edges bound in reverse order, data put last and never read (so no group structure or read status is
+    shared with the original); emitted only when every call is valid (no dangling edges) -/
+def twinLines (s : GenSt) : GenSt :=
+  let ks := (R.keys s.r s.cap).reverse
+  let t0 : GenSt := { s with h := "g1", r := Sodg.R.empty, cap := s.cap + 5, lines := #[] }
+  let ops : List Op := ks.map .add ++ ks.flatMap (fun v => (s.r.edg v).reverse.map (fun e => .bind v e.2 e.1)) ++
+    ks.filterMap (fun v => (s.r.dat v).map (.put v))
+  match t0.tryOps ops with
+  | some t => { s with lines := (s.lines.push s!"new g1 {s.n} {s.cap + 5}") ++ t.lines ++ #["xml g1", "dot g1", "debug g1"] }
+  | none => s
+
+def profRender : Prof := { wBind := 30, wAdd := 10, wPut := 10, wDataUnread := 8, wData := 3 }
+
+def genRender (rng : Rng) (len : Nat) : Rng × Array String :=
+  let (rng, n) := rng.pick [2, 3, 4, 8, 16]
+  let (rng, cap) := rng.pick [3, 5, 8, 12, 20]
+  let s := GenSt.start rng n cap
+  let s := (List.range (len / 2)).foldl (fun s _ => s.stepRandom profRender) s
+  let s := renderLines s
+  let s := twinLines s
+  let s := (List.range (len / 2)).foldl (fun s _ => s.stepRandom profRender) s
+  let s := renderLines s
+  let s := twinLines s
+  let s := s.drain
+  let s := renderLines s
+  (s.rng, s.lines)
+
 def genProfile (profile : String) (seed : Nat) (count len : Nat) : Array String := Id.run do
   if profile = "hex15" then return genHex15 seed len count
   if profile = "concat16" then return genConcat16 seed len
@@ -340,6 +376,7 @@ def genProfile (profile : String) (seed : Nat) (count len : Nat) : Array String 
         else genRandomHistory rng profGc len
       | "cycle" => genCycles rng (i % 14) len
       | "fork" => genFork rng len
+      | "render" => genRender rng len
       | "ser" => genSer rng len 7
       | "serall" => genSer rng len 1
       | _ => (rng, #[])
